@@ -534,7 +534,8 @@ where
 /// - `?` becomes `.` (match any single character)
 /// - `.` becomes `\.` (literal dot)
 fn glob_to_regex(pattern: &str) -> String {
-    let mut regex = String::from("^");
+    // `(?s)`: `.` must also match a `\n` inside a key (`?` is any single character, `**` any text)
+    let mut regex = String::from("(?s)^");
     let mut chars = pattern.chars().peekable();
 
     while let Some(ch) = chars.next() {
